@@ -37,6 +37,7 @@ type Contract struct {
 	PanicTyp  CExpr    // dynamic type id of the value this function panics with (optional)
 	PanicsIf  []Clause // one direction: condition implies panic (the function may also panic otherwise)
 	MayPanic  bool
+	IntImmutable bool // assumption: nobody mutates the big integer behind a math.Int value this function holds
 	Modifies  []CExpr
 	ModAll    bool
 	Loops     map[int]*LoopSpec
@@ -103,7 +104,7 @@ func NewContractSet() *ContractSet {
 }
 
 var keywords = map[string]bool{"func": true, "global": true, "requires": true, "ensures": true, "ensures_assumed": true, "uses": true, "pow10_max": true, "owns": true, "panics_iff": true, "panics_if": true, "panic_typ": true, "on_panic": true, "define": true,
-	"may_panic": true, "modifies": true, "loop": true, "props": true, "trusted": true, "inline": true, "let": true,
+	"may_panic": true, "int_values_immutable": true, "modifies": true, "loop": true, "props": true, "trusted": true, "inline": true, "let": true,
 	"lemma": true, "pure": true, "package": true, "keeper_iface": true, "var": true, "hyp": true, "concl": true, "assert": true, "end": true}
 
 var funcHdr = regexp.MustCompile(`^func\s+(\([^)]*\)\.)?([A-Za-z0-9_$#\[\],./\-]+)\s*\(([^)]*)\)\s*(.*)$`)
@@ -323,6 +324,8 @@ func (cs *ContractSet) ParseContractText(file, pkg, text string, trusted bool) {
 				cur.MayPanic = true
 			case "may_panic":
 				cur.MayPanic = true
+			case "int_values_immutable":
+				cur.IntImmutable = true
 			case "trusted":
 				cur.Trusted = true
 			case "inline":
@@ -343,7 +346,12 @@ func (cs *ContractSet) ParseContractText(file, pkg, text string, trusted bool) {
 					continue
 				}
 				for _, part := range splitTop(rest) {
-					cur.Modifies = append(cur.Modifies, parse(rl.n, part))
+					m := parse(rl.n, part)
+					if c, ok := m.(*CCall); cur.ModAll && !(ok && c.Fn == "ghost") {
+						errf(rl.n, "modifies * can only be combined with ghost(...) entries")
+						continue
+					}
+					cur.Modifies = append(cur.Modifies, m)
 				}
 			case "assert":
 				// assert call <name> : expr
